@@ -975,7 +975,7 @@ def numbers_case(lo, hi, rng=None, zs=False):
     return {'text': text, 'target': 'numbers', 'mand': ['ph0-is-pattern'], 'listed': ['imp-is-pattern'], 'steps': steps}
 
 
-def decode_case(rng, conventional=True):
+def decode_case(rng, conventional=True, twin=False):
     """Label-table workload: a target with 0-6 mandatory variables, $f order a random permutation of
     name order, a label list of length 0-40, random (not necessarily valid) step numbers and Z marks."""
     k = rng.randint(6, 8)
@@ -1003,8 +1003,17 @@ def decode_case(rng, conventional=True):
     if isinstance(t, str):
         t = imp(t, t)
     mand = [flab[v] for v in order if v in tv]
+    # optionally a second theorem over OTHER variables that carries byte-for-byte the same compressed proof text: its numbers 1..m
+    # denote ITS mandatory hypotheses
+    tv2 = None
+    if twin and m >= 1:
+        for _ in range(10):
+            cand = rng.sample(names, m)
+            if [flab[v] for v in order if v in cand] != mand:
+                tv2 = cand
+                break
     pool = ['imp-is-pattern', 'proof-rule-prop-1', 'proof-rule-prop-2', 'proof-rule-mp'] + [f'c{i}-is-pattern' for i in range(nconst)]
-    pool += [flab[v] for v in names if v not in tv]
+    pool += [flab[v] for v in names if v not in tv and (tv2 is None or v not in tv2)]
     L = rng.choice([0, 0, 1, 2, 3, 5, 8, 13, 21, 30, 40, rng.randint(0, 40)])
     listed = rng.sample(pool, min(L, len(pool)))
     zmode = rng.choice(['never', 'every', 'random', 'random'])
@@ -1044,10 +1053,22 @@ def decode_case(rng, conventional=True):
         lem.proof = '( ' + ' '.join(listed) + ' ) ' + break_letters(rng, letters(steps))
     # the proof string goes through the real lark parser, so the wild rendering also varies the whitespace
     # inside the label list and the letter stream
-    text = render(stmts + assertion_stmts(lem), rng, style)
-    return {'text': text, 'target': label, 'mand': mand, 'listed': listed, 'steps': steps, 'nvars': m,
-            'f_order': [flab[v] for v in order], 'zmode': zmode, 'style': style, 'conventional': conventional,
-            'f_sorted': mand == sorted(mand)}
+    lems = assertion_stmts(lem)
+    out = {'target': label, 'mand': mand, 'listed': listed, 'steps': steps, 'nvars': m,
+           'f_order': [flab[v] for v in order], 'zmode': zmode, 'style': style, 'conventional': conventional,
+           'f_sorted': mand == sorted(mand)}
+    if tv2 is not None:
+        ren = dict(zip(tv, tv2))
+        lem2 = Assertion('twin-' + label, t_subst(t, ren), kind='p', shape=lem.shape)
+        lem2.proof = lem.proof
+        first_twin = rng.random() < 0.5
+        lems = (assertion_stmts(lem2) + lems) if first_twin else (lems + assertion_stmts(lem2))
+        mand2 = [flab[v] for v in order if v in tv2]
+        out['twin'] = dict(out, target='twin-' + label, mand=mand2, f_sorted=mand2 == sorted(mand2), twin_of=label)
+    out['text'] = render(stmts + lems, rng, style)
+    if 'twin' in out:
+        out['twin']['text'] = out['text']
+    return out
 
 
 # ------------------------------------------------------------------- C17: databases with several lemmas
